@@ -17,17 +17,19 @@ static std::vector<std::string> seq;
 
 struct conc_t {                 // concrete side
   std::vector<term> a, b;       // contents of arrays a and b
-  term i, x, v;                 // scalars: index variable, loaded value, value variable
-  conc_t() : i(0), x(0), v(0) {}
+  term i, x, v, w;              // scalars: index variable, loaded value, two value variables
+  conc_t() : i(0), x(0), v(0), w(0) {}
 };
 struct world {
   vfac_t vf;
-  var_t A, Bv, I, X, Vv;
+  var_t A, Bv, I, X, Vv, Ww;
   dom_t D, D2;
   conc_t c, c2;
+  bool have_bounds = false; // bounds of the last initv / storev: storew / rangew reuse them (w ranges over the same interval as v)
+  term bl, bu;
   world()
       : A(vf["a"], crab::ARR_INT_TYPE, 32), Bv(vf["b"], crab::ARR_INT_TYPE, 32), I(vf["i"], crab::INT_TYPE, 32), X(vf["x"], crab::INT_TYPE, 32),
-        Vv(vf["v"], crab::INT_TYPE, 32), D(make_top()), D2(make_top()) {
+        Vv(vf["v"], crab::INT_TYPE, 32), Ww(vf["w"], crab::INT_TYPE, 32), D(make_top()), D2(make_top()), bl(0), bu(0) {
     for (int k = 0; k < N; k++) {
       c.a.push_back(fresh("a0"));
       c.b.push_back(fresh("b0"));
@@ -35,6 +37,7 @@ struct world {
     c.i = fresh("i0");
     c.x = fresh("x0");
     c.v = fresh("v0");
+    c.w = fresh("w0");
     c2 = c;
   }
 };
@@ -46,12 +49,35 @@ static term sel(const std::vector<term> &arr, const term &idx) { // arr[idx / ES
 static void upd(std::vector<term> &arr, const term &idx, const term &val) {
   for (int k = 0; k < N; k++) arr[k] = sx::ite(idx == term(k * ESZ), val, arr[k]);
 }
+// every exported constraint over the scalar variables holds on the concrete scalars (relational bases keep
+// relations between the loaded value and the stored variables)
+static void check_scalars(world &W, const char *what) {
+  auto csts = W.D.to_linear_constraint_system();
+  for (auto const &c : csts) {
+    term v(c.expression().constant());
+    bool known = true;
+    for (auto it = c.expression().begin(); it != c.expression().end(); ++it) {
+      const var_t &x = (*it).second;
+      term val(0);
+      if (x.index() == W.I.index()) val = W.c.i;
+      else if (x.index() == W.X.index()) val = W.c.x;
+      else if (x.index() == W.Vv.index()) val = W.c.v;
+      else if (x.index() == W.Ww.index()) val = W.c.w;
+      else known = false;
+      v = v + term((*it).first) * val;
+    }
+    if (!known) continue;
+    form f = c.is_inequality() ? (v <= term(0)) : c.is_strict_inequality() ? (v < term(0)) : c.is_equality() ? (v == term(0)) : !(v == term(0));
+    check(f, (std::string(what) + ": exported constraint over the scalars holds").c_str());
+  }
+}
 static void check_load(world &W, const term &conc, const char *what) {
   if (B(W.D.is_bottom())) {
     check(form(false), (std::string(what) + ": state became bottom").c_str());
     return;
   }
   check(mem(W.D.at(W.X), conc), (std::string(what) + ": loaded value in at(lhs)").c_str());
+  check_scalars(W, what);
 }
 static void step(world &W, const std::string &opstr) {
   std::vector<std::string> a = hx::split_csv(opstr, '.');
@@ -65,6 +91,9 @@ static void step(world &W, const std::string &opstr) {
   } else if (op == "initv") { // initial value given by a variable with symbolic bounds
     term l = fresh("l"), u = fresh("u");
     sx::assume(l <= W.c.v && W.c.v <= u);
+    W.have_bounds = true;
+    W.bl = l;
+    W.bu = u;
     W.D += lcsts_t(lcst_t(lexp_t(l.num()) - lexp_t(W.Vv), lcst_t::INEQUALITY));
     W.D += lcsts_t(lcst_t(lexp_t(W.Vv) - lexp_t(u.num()), lcst_t::INEQUALITY));
     W.D.array_init(W.A, esz, lexp_t(znum(0)), lexp_t(znum((N - 1) * ESZ)), lexp_t(W.Vv));
@@ -94,6 +123,26 @@ static void step(world &W, const std::string &opstr) {
     W.D += lcsts_t(lcst_t(lexp_t(W.Vv) - lexp_t(u.num()), lcst_t::INEQUALITY));
     W.D.array_store(W.A, esz, lexp_t(W.I), lexp_t(W.Vv), N == 1);
     upd(W.c.a, W.c.i, nv);
+  } else if (op == "storew") { // a[i] := variable w (another variable than the one used by initv/storev) with symbolic bounds
+    term nw = fresh("nw");
+    term l = W.have_bounds ? W.bl : fresh("l"), u = W.have_bounds ? W.bu : fresh("u");
+    sx::assume(l <= nw && nw <= u);
+    W.c.w = nw;
+    W.D -= W.Ww;
+    W.D += lcsts_t(lcst_t(lexp_t(l.num()) - lexp_t(W.Ww), lcst_t::INEQUALITY));
+    W.D += lcsts_t(lcst_t(lexp_t(W.Ww) - lexp_t(u.num()), lcst_t::INEQUALITY));
+    W.D.array_store(W.A, esz, lexp_t(W.I), lexp_t(W.Ww), N == 1);
+    upd(W.c.a, W.c.i, nw);
+  } else if (op == "rangew") { // forall k in [k1,k2]: a[k*esz] := w
+    term nw = fresh("nw");
+    term l = W.have_bounds ? W.bl : fresh("l"), u = W.have_bounds ? W.bu : fresh("u");
+    sx::assume(l <= nw && nw <= u);
+    W.c.w = nw;
+    W.D -= W.Ww;
+    W.D += lcsts_t(lcst_t(lexp_t(l.num()) - lexp_t(W.Ww), lcst_t::INEQUALITY));
+    W.D += lcsts_t(lcst_t(lexp_t(W.Ww) - lexp_t(u.num()), lcst_t::INEQUALITY));
+    W.D.array_store_range(W.A, esz, lexp_t(znum(I(1) * ESZ)), lexp_t(znum(I(2) * ESZ)), lexp_t(W.Ww));
+    for (long k = I(1); k <= I(2) && k < N; k++) W.c.a[k] = nw;
   } else if (op == "range") { // forall k in [k1,k2]: a[k*esz] := v
     term v = fresh("rv");
     W.D.array_store_range(W.A, esz, lexp_t(znum(I(1) * ESZ)), lexp_t(znum(I(2) * ESZ)), lexp_t(v.num()));
@@ -134,6 +183,7 @@ static void step(world &W, const std::string &opstr) {
     W.c.i = sx::ite(pick, W.c.i, W.c2.i);
     W.c.x = sx::ite(pick, W.c.x, W.c2.x);
     W.c.v = sx::ite(pick, W.c.v, W.c2.v);
+    W.c.w = sx::ite(pick, W.c.w, W.c2.w);
   } else
     throw sxe::no_verdict{"unknown-op"};
   check(form(!B(W.D.is_bottom())), "array operation does not turn a reachable state into bottom");
